@@ -21,6 +21,18 @@ CAUGHT = {
  "C16-1": ("C16", "C16 [after convergence, at the id wrap] not reconstructed"), "C16-2": ("C16", "C16 decoder did not adopt the sender's ratio ..."),
  "C17-1": ("C17", "C17 task never ran (waves pattern)"), "C17-2": ("C17", "C17 task never ran"),
  "C18-1": ("C18, C12", "C18 data segment transmitted more than once on a clean path (clock offsets)"), "C18-2": ("C18", "C18 retransmission timeout outside [minimum, 60s]"),
+ "C08-1": ("C08", "C08 <cipher> roundtrip in-place (16-byte block ciphers)"), "C08-2": ("C08", "C08 child/guard: panic on the empty packet"),
+ "C20-1": ("C20", "C20 ForEachReverse/...: queue model mismatch"), "C20-2": ("C20", "C20 Discard(2): queue model mismatch (slot retains element)"),
+ "C12-1": ("C12", "C12 shifted run ends differently"), "C12-2": ("C12", "C12 shifted run ends differently"),
+ "C01-3": ("C01", "C01 reader received bytes that are not the next bytes written (mtu-raise-in-stream part)"), "C01-4": ("C01", "C01 reader received bytes that are not the next bytes written; history not linearizable"),
+ "C02-3": ("C02", "C02 sender's backlog did not return to zero although everything was delivered (session tails)"), "C02-4": ("C02", "C02 backlog not drained within the bound"),
+ "C04-3": ("C04", "C04 delivery queue holds more than one receive window"), "C04-4": ("C04", "C04 more than a send window of segments outstanding"),
+ "C06-3": ("C06", "C06 datagrams failing the integrity check made valid datagrams of the same receive batch disappear (real UDP)"), "C06-4": ("C06", "C06 ... moved other counters"),
+ "C07-3": ("C07", "C07 missing data packet not reconstructed ..."), "C07-4": ("C07", "C07 decoder emitted something that is not an original data packet"),
+ "C09-3": ("C09", "C09 CRC32 / AEAD tag of an emitted datagram does not verify"), "C09-4": ("C09", "C09 CRC32 does not cover ...; stream reassembled from the wire is shorter"),
+ "C11-3": ("C11", "C11 a segment with a different conversation id inside a datagram from the same address was merged"), "C11-4": ("C11", "C11 a new peer never produced an Accept"),
+ "C13-3": ("C13", "C13 read: wrong number of callers woke on a socket read error (listener closed first)"), "C13-4": ("C13", "C13 ...: first deadline set while blocked"),
+ "C15-3": ("C15", "C15 session references a pooled buffer after it was recycled"), "C15-4": ("C15", "C15 scheduled callback still pending / goroutine alive (backlog overflow shutdown)"),
  "C19-1": ("C19", "C19 out-of-band message delivered to another session"), "C19-2": ("C19", "C19 session without FEC accepted SendOOB"),
 }
 CAUGHT.update(json.load(open(os.path.join(V, "tools", "seeded_extra.json"))) if os.path.exists(os.path.join(V, "tools", "seeded_extra.json")) else {})
